@@ -51,6 +51,11 @@ def run_all(c, prop, members=None, parallel=3):
         c.cov["distinct_nontrivial"] = 2
         return
     jobs = [(m, prop, c.tier, c.work, c.seed) for m in members]
+    if c.tier != "quick":
+        # thorough members run up to 16 trace-validating JVMs each; three at
+        # once can exhaust the 62 GB of this sandbox (an OOM-killed TLC is a
+        # machinery error, not a verdict), so run two at a time
+        parallel = min(parallel, 2)
     ev = dn = tv = st = tr = 0
     with concurrent.futures.ThreadPoolExecutor(parallel) as ex:
         for member, d, tail in ex.map(_run_member, jobs):
